@@ -148,7 +148,11 @@ def snapshot(kind, st):
     snap = {}
     for n in _names(kind, st):
         v = getattr(st, n, None)
-        if isinstance(v, (list, tuple)):
+        if n == "dialect_options":
+            # a lazily populated registry: compilers look up e.g. oracle_fetch_approximate / mysql_limit and the DEFAULTS get filled
+            # in as a side effect; only what the user specified is state of the statement
+            c = _user_dialect_options(v)
+        elif isinstance(v, (list, tuple)):
             c = list(v)
         elif isinstance(v, dict):
             c = dict(v)
@@ -156,6 +160,10 @@ def snapshot(kind, st):
             c = None
         snap[n] = (v, c)
     return snap
+
+
+def _user_dialect_options(v):
+    return {d: dict(getattr(o, "_non_defaults", {})) for d, o in dict(v).items() if getattr(o, "_non_defaults", None)}
 
 
 def changed(kind, st, snap):
@@ -167,6 +175,9 @@ def changed(kind, st, snap):
         cur = getattr(st, n, None)
         if cur is not v:
             out.append("%s rebound" % n)
+        elif n == "dialect_options":
+            if _user_dialect_options(cur) != c:
+                out.append("dialect_options (user-specified part) changed")
         elif c is not None:
             if isinstance(c, list):
                 if len(cur) != len(c) or any(x is not y for x, y in zip(cur, c)):
